@@ -170,7 +170,7 @@ def generate(tier, rng):
     for _ in range(n):
         kind = "I" if rng.random() < 0.7 else "P"
         sc = gen.pick_scale(rng, decimal_share=0.3)
-        t0 = gen.random_itier(rng, tmax=40, maxn=5) if kind == "I" else gen.random_ptier(rng, tmax=40, maxn=5)
+        t0 = gen.random_itier(rng, tmax=40, maxn=5, long_p=0.015) if kind == "I" else gen.random_ptier(rng, tmax=40, maxn=5, long_p=0.015)
         scale = core.Scale(*sc)
         try:
             ops, _ = _run_history(t0, None, scale, kind, _gen_op, rng, rng.randint(1, 12))
